@@ -89,6 +89,14 @@ Theorem C06_full_width : forall lon_div lat_div lon_lim lat_lim cols width inter
 Proof. intros. eapply interp_width; eassumption. Qed.
 Print Assumptions C06_full_width.
 
+(* the contract is satisfiable for the tie-point columns of the source (a step interpolator meets it): the two theorems above
+   are not vacuous *)
+Theorem C06_contract_satisfiable :
+  interp_contract geo_gac_sample_points 409 (step_interp geo_gac_sample_points 409) /\
+  interp_contract geo_lac_sample_points 2048 (step_interp geo_lac_sample_points 2048).
+Proof. split; apply step_interp_contract; vm_compute; repeat split. Qed.
+Print Assumptions C06_contract_satisfiable.
+
 (* every returned coordinate is NaN or inside [-180,180] / [-90,90]; one row per scan line; flagged lines are NaN *)
 Theorem C06_in_range : forall lon_div lat_div lon_lim lat_lim interp b ls row p,
   In row (get_lonlat lon_div lat_div lon_lim lat_lim interp b ls) -> In p row ->
